@@ -127,6 +127,11 @@ func shapeValue(sh string) interface{} {
 	switch sh {
 	case "S13":
 		return S13{Élan: "e", X: 17}
+	case "S14": // an unnamed struct type that embeds S6 by value
+		return struct {
+			S6
+			Q int
+		}{S6{X: 77, hidden: 99}, 5}
 	case "S11":
 		return S11{ubase: ubase{W: "w", X: 33}, K: 21}
 	case "S12":
@@ -215,6 +220,7 @@ type AOp struct {
 	Want  []int  `json:"want"`
 	Any   bool   `json:"any"`   // the lookup is made but its result is not determined by the property
 	Flood int    `json:"flood"` // >0: look up this many fresh (type, name) pairs first
+	Sb    bool   `json:"sb"`    // the lookup is made by a template that is included sandboxed (an engine with a policy)
 }
 
 type ACase struct {
@@ -317,12 +323,22 @@ func runAttrHist(c *ACase) (res Result) {
 				}
 			}
 			trail = append(trail, desc+"."+op.N)
+			if op.Sb {
+				trail[len(trail)-1] += "(sandboxed)"
+			}
 			if err := e.RegisterString("t", src); err != nil {
 				res.Pass = false
 				res.Fails = append(res.Fails, Fail{Run: fmt.Sprintf("op%d", i+1), Why: "parse", Got: err.Error(), Src: strings.Join(trail, " ; ")})
 				return
 			}
-			out, err := e.Render("t", map[string]interface{}{"o": obj, "l": []interface{}{obj}, "m": map[string]interface{}{"k": obj}})
+			entry := "t"
+			if op.Sb {
+				// an engine of its own with the default policy: the lookup happens below a sandboxed include
+				e.RegisterString("tsb", "{% include 't' sandboxed %}")
+				e.EnableSandbox(twig.NewDefaultSecurityPolicy())
+				entry = "tsb"
+			}
+			out, err := e.Render(entry, map[string]interface{}{"o": obj, "l": []interface{}{obj}, "m": map[string]interface{}{"k": obj}})
 			if err == nil && form == "attr" {
 				fmt.Fprintf(&jointSrc, "{%% set r%d = o%d.%s %%}", i, i, name)
 				jointCtx[fmt.Sprintf("o%d", i)] = obj
